@@ -168,6 +168,8 @@ type SimConfig struct {
 	IndexEvents bool
 	// ArrayIndexEvents: also record indexes into arrays whose index is not a constant.
 	ArrayIndexEvents bool
+	// SliceEvents: record slice expressions with a non-constant bound (x[a:b]) as "slicebounds" events.
+	SliceEvents bool
 	// MaxSteps bounds the total number of instructions simulated (default 20 million).
 	MaxSteps int
 	// MaxVisits: how often a block may be entered per activation (default 3:
@@ -1238,6 +1240,18 @@ func (s *Sim) simInstrs(fr *Frame, st *State, b *ssa.BasicBlock, from int, k con
 				}
 			}
 			fr.env[x] = &Term{Op: "slice", Type: x.Type(), Args: args}
+			if s.Cfg.SliceEvents {
+				_, lowConst := x.Low.(*ssa.Const)
+				_, highConst := x.High.(*ssa.Const)
+				_, onSlice := x.X.Type().Underlying().(*types.Slice)
+				highPos := false
+				if hc, ok := x.High.(*ssa.Const); ok && hc.Value != nil && hc.Int64() > 0 {
+					highPos = onSlice || isStringType(x.X.Type())
+				}
+				if (x.Low != nil && !lowConst) || (x.High != nil && !highConst) || highPos {
+					s.emit(st, fr, &Event{Kind: "slicebounds", Instr: x, Args: args})
+				}
+			}
 		case *ssa.TypeAssert:
 			v := s.val(fr, st, x.X)
 			t := &Term{Op: "ta", Type: x.AssertedType, Args: []*Term{v}}
@@ -1817,7 +1831,12 @@ func inlineHelpersOf(root *ssa.Function) func(*ssa.Function, int) bool {
 			for top.Parent() != nil {
 				top = top.Parent()
 			}
-			return top != root && isHelper(top) && fnPkg(top) == rp
+			if top == root {
+				// a literal of the analysed function itself, run synchronously by a helper it was handed to
+				// (withLock(func(){…}), each(func(x){…})): part of the function's own control flow
+				return depth > 0
+			}
+			return isHelper(top) && fnPkg(top) == rp
 		}
 		return isHelper(callee) && fnPkg(callee) == rp && callee != root
 	}
